@@ -1227,7 +1227,28 @@ def _linalg_ok(a):
     n = len(a.args[0])
     if a.kind == "fn:eigvalsh":
         return any(n == m * (m + 1) // 2 for m in (1, 2, 3, 4, 6)) and len(a.args) == 2 and isinstance(a.args[1], int)
+    if a.kind == "fn:eigh.vec":
+        return any(n == m * (m + 1) // 2 for m in (1, 2, 3, 4, 6)) and len(a.args) == 3 and all(isinstance(x, int) for x in a.args[1:])
+    if a.kind in ("fn:svd.U", "fn:svd.Vh"):
+        return any(n == m * m for m in (1, 2, 3, 4, 6)) and len(a.args) == 3 and all(isinstance(x, int) for x in a.args[1:])
     return any(n == m * m for m in (1, 2, 3, 4, 6))
+
+
+_LINALG_KINDS = ("fn:eigvalsh", "fn:det", "fn:inv", "fn:svd.S", "fn:eigh.vec", "fn:svd.U", "fn:svd.Vh")
+_VEC_MEMO: dict = {}
+
+
+def _unit_sign(V):
+    """columns with their largest component made positive: a deterministic representative of each eigenvector / singular vector, so that
+    the SAME axis obtained from two different decompositions compares equal; anything that depends on the sign a library happens to
+    return is outside what is modelled"""
+    import numpy as _np
+    V = V.copy()
+    for k in range(V.shape[1]):
+        j = int(_np.argmax(_np.abs(V[:, k])))
+        if V[j, k] < 0:
+            V[:, k] = -V[:, k]
+    return V
 
 
 def _linalg_value(kind, args, val):
@@ -1238,7 +1259,7 @@ def _linalg_value(kind, args, val):
     if any(v != v or abs(v) == float("inf") for v in vs):
         return float("nan")
     try:
-        if kind == "fn:eigvalsh":
+        if kind in ("fn:eigvalsh", "fn:eigh.vec"):
             m = next(m for m in (1, 2, 3, 4, 6) if m * (m + 1) // 2 == len(vs))
             M = _np.zeros((m, m))
             q = 0
@@ -1246,7 +1267,14 @@ def _linalg_value(kind, args, val):
                 for j in range(i + 1):
                     M[i, j] = M[j, i] = vs[q]
                     q += 1
-            return float(_np.linalg.eigvalsh(M)[args[1]])
+            if kind == "fn:eigvalsh":
+                return float(_np.linalg.eigvalsh(M)[args[1]])
+            key = ("eigh", tuple(vs))
+            if key not in _VEC_MEMO:
+                if len(_VEC_MEMO) > 4000:
+                    _VEC_MEMO.clear()
+                _VEC_MEMO[key] = _unit_sign(_np.linalg.eigh(M)[1])
+            return float(_VEC_MEMO[key][args[1], args[2]])
         m = next(m for m in (1, 2, 3, 4, 6) if m * m == len(vs))
         M = _np.array(vs, dtype=float).reshape(m, m)
         if kind == "fn:det":
@@ -1255,6 +1283,18 @@ def _linalg_value(kind, args, val):
             return float(_np.linalg.inv(M)[args[1], args[2]])
         if kind == "fn:svd.S":
             return float(_np.linalg.svd(M, compute_uv=False)[args[1]])
+        if kind in ("fn:svd.U", "fn:svd.Vh"):
+            key = ("svd", tuple(vs))
+            if key not in _VEC_MEMO:
+                if len(_VEC_MEMO) > 4000:
+                    _VEC_MEMO.clear()
+                U, S_, Vh = _np.linalg.svd(M)
+                # one sign choice per singular pair keeps U diag(S) Vh == M
+                U2 = _unit_sign(U)
+                flip = _np.array([1.0 if (U2[:, k] == U[:, k]).all() else -1.0 for k in range(U.shape[1])])
+                _VEC_MEMO[key] = (U2, Vh * flip[:, None])
+            U2, Vh2 = _VEC_MEMO[key]
+            return float((U2 if kind == "fn:svd.U" else Vh2)[args[1], args[2]])
     except Exception:
         return float("nan")
     return float("nan")
@@ -1358,7 +1398,7 @@ def evalf(e, env=None, seed=0, strict=False, tie=0.0):
                 v = math.asin(x) if -1 <= x <= 1 else float("nan")
             elif k == "fn:arctan":
                 v = math.atan(val(a.args[0]))
-            elif k in ("fn:eigvalsh", "fn:det", "fn:inv", "fn:svd.S") and a.args and isinstance(a.args[0], tuple) and _linalg_ok(a):
+            elif k in _LINALG_KINDS and a.args and isinstance(a.args[0], tuple) and _linalg_ok(a):
                 v = _linalg_value(k, a.args, val)
             elif k in ("fn:cosh", "fn:sinh", "fn:tanh") and len(a.args) == 1:
                 x = val(a.args[0])
@@ -1462,6 +1502,9 @@ def _guard_leaves(g, acc):
     return acc
 
 
+_INTERPRETED_KINDS = {"fn:sin", "fn:cos", "fn:arccos", "fn:arcsin", "fn:arctan", "fn:arctan2", "fn:pow", "fn:max", "fn:min", "fn:eigvalsh", "fn:det", "fn:inv",
+                      "fn:svd.S", "fn:eigh.vec", "fn:svd.U", "fn:svd.Vh", "fn:cosh", "fn:sinh", "fn:tanh", "fn:log", "fn:select", "fn:inf", "fn:round", "fn:floor", "fn:ceil", "fn:trunc", "fn:int",
+                      "fn:clip", "fn:sqrt"}
 _POOL = (0.0, 1.0, 2.0, 3.0, 4.0, -1.0, 0.5, -0.5, 1e-17, 10.0)
 
 
@@ -1477,6 +1520,9 @@ def guard_worlds(a, b, seed, limit=40):
         for truth in (True, False):
             eqs = {}
             _guard_equalities(g, truth, eqs)
+            # an INTERPRETED function atom (sin, max, eigvalsh ...) has the value its arguments give it: overriding it would make the point
+            # inconsistent with the other atoms built from the same arguments; such boundaries are reached by solving for a symbol below
+            eqs = {k_: v_ for k_, v_ in eqs.items() if k_.kind not in _INTERPRETED_KINDS}
             if eqs:
                 env = {}
                 try:
@@ -1605,6 +1651,18 @@ def _decide_by_cases(a, b, budget, gs, keys):
     return True
 
 
+def _library_identity(d, seps, onesided):
+    """The algebra does not know the relations that eigenvalues, eigenvectors, singular values/vectors, determinants and inverses satisfy
+    (M v = lambda v, U S Vh = M ...), but it evaluates them exactly at witness points.  Two forms whose difference contains such atoms and
+    that agreed at all of >= 5 generic points (none undefined on one side only) are accepted as equal by randomised identity testing; the
+    acceptance is counted in the evidence."""
+    if onesided or len(seps) < 5 or any(x for x, _ in seps):
+        return False
+    if select_guards(d, limit=1):
+        return False
+    return any(a.kind in _LINALG_KINDS and a.args and isinstance(a.args[0], tuple) and _linalg_ok(a) for a in atoms_of(d, deep=True))
+
+
 def decide(a, b, budget=1_000_000, _cases=True, seconds=30):
     """Three-valued identity decision.
     1. structural equality of the normal forms (no unfolding)            -> ("equal", None)
@@ -1687,12 +1745,18 @@ def decide(a, b, budget=1_000_000, _cases=True, seconds=30):
         if is_zero(d):
             return "equal", None
     except Budget as ex:
+        if _library_identity(d, seps, onesided):
+            RANDOMISED.append(1)
+            return "equal", {"by": "randomised identity test (library eigen/singular decompositions evaluated exactly at the points)", "points": len(seps)}
         return "unknown", str(ex)
     finally:
         _WORK[0], _WORK[1] = saved[0] + _WORK[0], saved[1]
         _DEADLINE[0] = saved_deadline
     if seps and any(x for x, _ in seps):
         return "differ", [w for x, w in seps if x][0]
+    if _library_identity(d, seps, onesided):
+        RANDOMISED.append(1)
+        return "equal", {"by": "randomised identity test (library eigen/singular decompositions evaluated exactly at the points)", "points": len(seps)}
     return "unknown", "normal forms differ after unfolding but no numeric witness separates them"
 
 
